@@ -69,8 +69,8 @@ func init() {
 		Run:      func(sc any, tr *kit.Trace) *kit.Result { return runC01(sc.(*C01Scenario), tr) },
 		Shrink:   shrinkC01,
 		PerChunk: 40,
-		Quick:    900,
-		Thorough: 40000,
+		Quick:    4000,
+		Thorough: 150000,
 	})
 }
 
@@ -79,6 +79,18 @@ func genC01(r *kit.RNG) *C01Scenario {
 	opt := world.GenOpt{SharedServers: true, AllSigned: r.Chance(0.4)}
 	sc.World.Zones = world.GenHierarchy(r, opt)
 	sc.World.Zones[0].Records = append(sc.World.Zones[0].Records, "a.root-servers.net. 518400 IN A 198.41.0.4")
+	if r.Chance(0.12) {
+		// one signed zone publishes signatures that expired before the run, or that are
+		// not valid yet
+		i := r.Range(1, len(sc.World.Zones)-1)
+		if sc.World.Zones[i].Signed {
+			if r.Bool() {
+				sc.World.Zones[i].SigFromH, sc.World.Zones[i].SigToH = -72, -24
+			} else {
+				sc.World.Zones[i].SigFromH, sc.World.Zones[i].SigToH = 24 * 30, 24 * 60
+			}
+		}
+	}
 	sc.World.Cfg.QnameMin = kit.Pick(r, []int{0, 0, 3, 5})
 	sc.World.Cfg.RFC8198Off = r.Chance(0.2)
 	sc.World.Cfg.CacheSize = kit.Pick(r, []int{1024, 4096})
@@ -122,7 +134,7 @@ func genC01(r *kit.RNG) *C01Scenario {
 				t.Step = "referral"
 			case "drop-denial", "foreign-denial", "nx-to-nodata":
 				t.Step = kit.Pick(r, []string{"negative", "referral", "ds"})
-			case "nodata-for-existing", "flip-rdata", "inject-answer", "drop-some-sigs":
+			case "nodata-for-existing", "flip-rdata", "forge-resign", "inject-answer", "drop-some-sigs":
 				t.Step = kit.Pick(r, []string{"answer", "dnskey", "ds"})
 			}
 			sc.Tampers = append(sc.Tampers, t)
@@ -314,6 +326,15 @@ func execC01(sc *C01Scenario, tr *kit.Trace, res *kit.Result) {
 			res.Probes["no-anchor-servfail"]++
 			continue
 		}
+		if truth.Bogus {
+			if m.Rcode != dns.RcodeServerFailure {
+				res.Fail("C01/expired-signatures-accepted", "%s: a zone on the secure path only has signatures outside their validity window, yet the client did not get SERVFAIL", ctx)
+				return
+			}
+			res.Probes["bogus-window-servfail"]++
+			res.Nontrivial = true
+			continue
+		}
 		if m.Rcode == dns.RcodeServerFailure {
 			if !everTampered {
 				res.Probes["selfcheck:faultfree-servfail"]++
@@ -405,7 +426,8 @@ func execC01(sc *C01Scenario, tr *kit.Trace, res *kit.Result) {
 					}
 				}
 			}
-			if (own || onPath) && f.kind != "drop-some-sigs" && f.kind != "sig-resign" || (own && f.kind == "sig-resign") {
+			resign := f.kind == "sig-resign" || f.kind == "forge-resign"
+			if (own || onPath) && f.kind != "drop-some-sigs" && !resign || (own && resign) {
 				res.Fail("C01/tampered-not-servfail", "%s: tampering %s hit the %s response of %s for %s/%s, yet the client did not get SERVFAIL", ctx, f.kind, f.step, f.zone, f.qname, dns.TypeToString[f.qtype])
 				return
 			}
